@@ -329,7 +329,9 @@ func (s *httpServer) channelHandler(w http.ResponseWriter, req *http.Request, ps
 		messages = append(messages, pe.Error())
 	}
 
-	sort.Sort(clusterinfo.ClientStatsByNodeTopology{channelStats[channelName].Clients})
+	if cs := channelStats[channelName]; cs != nil {
+		sort.Sort(clusterinfo.ClientStatsByNodeTopology{cs.Clients})
+	}
 
 	return struct {
 		*clusterinfo.ChannelStats
